@@ -312,9 +312,9 @@ def run(tier, seed):
     t0 = time.time()
     total = Result()
     if tier == 'quick':
-        nseq, nshort, variants, mult = 3000, 1000, [('release', 1.0), ('dev', 0.3)], 1
+        nseq, nshort, variants, mult = 3000, 1000, [('release', 1.0), ('dev', 0.3), ('plain', 0.2)], 1
     else:
-        nseq, nshort, variants, mult = 60000, 20000, [('release', 1.0), ('dev', 0.2), ('std', 0.1)], 8
+        nseq, nshort, variants, mult = 60000, 20000, [('release', 1.0), ('dev', 0.2), ('std', 0.1), ('plain', 0.1)], 8
     try:
         for variant, frac in variants:
             binary = build(variant)
